@@ -439,3 +439,46 @@ func c12ReplayDoc(t *testing.T, doc map[string]any) {
 		t.Fatalf("VERIF-VIOLATION property=C12 replay=%s :: %s", os.Getenv("VERIF_REPLAY_FILE"), viol)
 	}
 }
+
+// TestC12GenCorpus (VERIF_GEN_CORPUS=1) writes seeds for FuzzDecodeMessage:
+// valid messages from both codecs and crafted pointer graphs.
+func TestC12GenCorpus(t *testing.T) {
+	if os.Getenv("VERIF_GEN_CORPUS") == "" {
+		t.Skip("set VERIF_GEN_CORPUS=1 to regenerate the seed corpus")
+	}
+	dir := "testdata/fuzz/FuzzDecodeMessage"
+	os.MkdirAll(dir, 0o755)
+	n := 0
+	write := func(b []byte) {
+		n++
+		os.WriteFile(fmt.Sprintf("%s/seed-%03d", dir, n), []byte(fmt.Sprintf("go test fuzz v1\n[]byte(%q)\n", b)), 0o644)
+	}
+	own := rapid.Custom(func(rt *rapid.T) []byte { return dnsfx.GenMessage(rt, "m").Bytes() })
+	adv := rapid.Custom(func(rt *rapid.T) []byte { b, _ := advMessage(rt); return b })
+	foreign := rapid.Custom(func(rt *rapid.T) []byte {
+		var pool []string
+		var secs [3][]dnsfx.XRecord
+		for s := 0; s < 3; s++ {
+			for i, k := 0, rapid.IntRange(0, 3).Draw(rt, "n"); i < k; i++ {
+				if x, err := dnsfx.GenXRecord(rt, fmt.Sprintf("r%d_%d", s, i), &pool, s == 2 && i == 0); err == nil {
+					secs[s] = append(secs[s], x)
+				}
+			}
+		}
+		pkt, err := dnsfx.BuildX(dnsmessageHeader(), nil, secs, true)
+		if err != nil {
+			rt.Skip("refused")
+		}
+		return pkt
+	})
+	for i := 0; i < 12; i++ {
+		if b := own.Example(i); len(b) < 3000 {
+			write(b)
+		}
+		write(adv.Example(i))
+		if b := foreign.Example(i); len(b) < 3000 {
+			write(b)
+		}
+	}
+	t.Logf("wrote %d seeds", n)
+}
